@@ -23,6 +23,10 @@ def run(chk: Check) -> None:
     # left for EXCEPTED through the bypass (obligations shared with C02)
     from .c02 import close_once
     close_once(chk)
+    # announcing the new state is part of entering it: a communicator failure that is not tolerated there fails the transition AFTER the terminal state object was
+    # installed, and the process leaves FINISHED / KILLED for EXCEPTED (obligation shared with C16)
+    from .c16 import tolerated_broadcast_failures
+    tolerated_broadcast_failures(chk, 'ESC-terminal-entry')
 
 
 def terminal_hooks_cannot_fail_on_futures(chk: Check) -> None:
